@@ -579,9 +579,10 @@ class Conformance:
     def run(self, label, cfg, driver_name, driver_srcs, cases, spec, shards=NCPU, extra_cc=None,
             wraps=None, env=None, driver_timeout=900, tlc_timeout=900, driver_args=None,
             bdir=None, nontrivial=None, min_per_shard=200, seg_start=None, case_seg_start=None,
-            heap="3g", stateless=True):
+            heap="3g", stateless=True, objs_first=None, event_map=None):
         bdir = bdir or build_relic(cfg)
-        exe = cc_harness(cfg, driver_name, driver_srcs, bdir=bdir, extra=extra_cc, wraps=wraps)
+        exe = cc_harness(cfg, driver_name, driver_srcs, bdir=bdir, extra=extra_cc, wraps=wraps,
+                         objs_first=objs_first)
         d = os.path.join(self.wd, label)
         os.makedirs(d, exist_ok=True)
         cpath = os.path.join(d, "cases.txt")
@@ -590,6 +591,8 @@ class Conformance:
         t0 = time.time()
         events = run_driver(exe, cpath, os.path.join(d, "trace.ndjson"), timeout=driver_timeout,
                             args=driver_args)
+        if event_map:
+            events = [event_map(e) for e in events]
         t1 = time.time()
         tenv = dict(env or {})
         tenv["KNOWN"] = self.known_file
@@ -626,7 +629,9 @@ class Conformance:
                         s0 -= 1
                     line = "\n".join(cases[s0:ci + 1])
                 open(cp, "w").write(line + "\n")
-                ev2 = run_driver(exe, cp, os.path.join(rd, "trace.ndjson"), timeout=120, args=driver_args)
+                ev2 = run_driver(exe, cp, os.path.join(rd, "trace.ndjson"), timeout=300, args=driver_args)
+                if event_map:
+                    ev2 = [event_map(e) for e in ev2]
                 v2 = validate_trace(spec, ev2, os.path.join(rd, "tlc"), shards=1, env=tenv, timeout=300)
                 confirmed = bool(v2.rejected)
                 if v2.infra:
@@ -682,7 +687,7 @@ class Conformance:
         return 0
 
 
-def replay_generic(path):
+def replay_generic(path, objs_first=None, event_map=None):
     """bin/check <ID> --replay <file>: re-execute one recorded case."""
     r = json.load(open(path))
     prop = r["property"]
@@ -695,7 +700,8 @@ def replay_generic(path):
         return 1
     events, v = c.run("replay", r["cfg"], r["driver"], r["driver_srcs"], r["case"].split("\n"), r["spec"],
                       shards=1, extra_cc=r.get("extra_cc"), wraps=r.get("wraps"), env=r.get("env"),
-                      driver_args=r.get("driver_args"))
+                      driver_args=r.get("driver_args"), objs_first=objs_first, event_map=event_map,
+                      stateless=False)
     for key, n in c.known_hits.items():
         print("KNOWN-FINDING: property=%s %s" % (prop, key))
     if c.violations:
